@@ -9,82 +9,82 @@ HERE = os.path.dirname(os.path.dirname(os.path.abspath(__file__)))
 CHECKS = {
  "C01": (True,
    'bounded exhaustive exploration of the real API in a statement-counting instrumented build: all token sequences / byte strings / edit neighbourhoods up to a bound x six operations, plus exact step/allocation growth on adversarial families',
-   'Every token sequence <= 4/5 over the 28-token alphabet, every byte string <= 4/6 over 16 lexer-class representatives and <= 5/7 over 9 UTF-8 fragment bytes, every 1-edit neighbour of every depth-1 tree text, each with and without default field, is run through Parse, ToPostgres, ToParameterizedPostgres and (on accepted trees) String, GoString, json.Marshal under recover, in a build where every statement of the library increments a counter: a panic, a budget overrun (2x10^6 statements; need < 10^4) or a %! marker is a violation. 4 872 adversarial families frame(block^n) (812 blocks x 6 frames, incl. a fielded group under a default field) are run for n doubling from 16 to 1 024 / 4 096 tokens with exact statement and allocation counts; growth beyond 9x per doubling (from n=64) or beyond 20x the count at the previous size is a violation, with early exit.',
+   'Every token sequence <= 4/5 over the 28-token alphabet, every byte string <= 4/6 over 16 lexer-class representatives and <= 5/7 over 9 UTF-8 fragment bytes, every 1-edit neighbour of every depth-1 tree text, each with and without default field, is run through Parse, ToPostgres, ToParameterizedPostgres and (on accepted trees) String, GoString, json.Marshal under recover, in a build where every statement of the library increments a counter: a panic, a budget overrun (2x10^6 statements; need < 10^4) or a %! marker is a violation. 4 872 adversarial families frame(block^n) (812 blocks x 6 frames, incl. a fielded group under a default field) are run for n doubling from 16 to 1 024 / 4 096 tokens with exact statement and allocation counts; growth beyond 9x per doubling (from n=64) or beyond 20x the count at the previous size is a violation, with early exit. Added later: token sequences over a format-verb alphabet (values spelling %d %s %v with ^ ~ and numbers) to length 5/7, number-named fields in groups to length 7; a worker killed by a Go runtime fatal error (stack exhaustion) is diagnosed through a case journal and reported as clause fatal.',
    "Polynomial time is decided as bounded growth on the enumerated families up to the length bound, not proved asymptotically. Instrumentation is regenerated from /repo's working tree on every run (go build -overlay).",
    "4/C01"),
  "C02": (True,
    "bounded exhaustive exploration of both renderers over all concatenations of hostile fragments in every value slot and lexical form plus all accepted token sequences, each output re-read by PostgreSQL's own grammar and scanner (confinement + whitelist reference)",
-   "Every concatenation of <= 2 (thorough 3 on the exposed slots) of 35 hostile fragments (quotes, separators, comment openers, casts, NaN/Inf, NUL, invalid UTF-8, 64-byte runs, format/template placeholders) is placed in each of 8 slots (equality/comparison value, range bounds, list element, bare term, field name, default-field name) in each lexical form that can carry it (quoted, backslash-escaped, raw word) and rendered inline and parameterised; so is every accepted token sequence <= 4/5 with and without default field. Every successful render is parsed inside SELECT 1 FROM t WHERE (<sql>) by PostgreSQL 15's grammar: one statement, everything but the WHERE clause protobuf-equal to the template, no comment or ; token, only whitelisted node kinds, column references ⊆ names the harness wrote, string constants ⊆ values it wrote, numeric constants equal to its numbers, no user-derived constant in parameterised SQL except the documented '*'.",
+   "Every concatenation of <= 2 (thorough 3 on the exposed slots) of 35 hostile fragments (quotes, separators, comment openers, casts, NaN/Inf, NUL, invalid UTF-8, 64-byte runs, format/template placeholders) is placed in each of 8 slots (equality/comparison value, range bounds, list element, bare term, field name, default-field name) in each lexical form that can carry it (quoted, backslash-escaped, raw word) and rendered inline and parameterised; so is every accepted token sequence <= 4/5 with and without default field. Every successful render is parsed inside SELECT 1 FROM t WHERE (<sql>) by PostgreSQL 15's grammar: one statement, everything but the WHERE clause protobuf-equal to the template, no comment or ; token, only whitelisted node kinds, column references ⊆ names the harness wrote, string constants ⊆ values it wrote, numeric constants equal to its numbers, no user-derived constant in parameterised SQL except the documented '*'. Added later: 40 fragments (valid multi-byte text, multi-byte runs of 63/64/66 bytes).",
    'Grammar-level only (no analysis-time typing); render errors are acceptable; names and values are known to the harness because it built the query (no reliance on Parse).',
    "4/C02"),
  "C03": (True,
    "bounded exhaustive exploration of the inline renderer over all leaf forms and all trees to a depth bound of the filterable fragment, SQL re-read by PostgreSQL's grammar and evaluated against a Lucene-semantics reference on boundary-hitting probe rows",
-   "Every leaf form of the filterable fragment (85 leaves: equality on ints incl. int64 extremes, decimals, words, phrases; < <= > >= on int/float/string; every bound-kind x inclusivity range incl. open and doubly open; value lists; patterns) is rendered, read back by PostgreSQL's grammar and evaluated on probe rows hitting every region and boundary its constants cut out, against the leaf's Lucene meaning; every depth-1 tree over all leaves, depth-2 over 6 leaves (thorough depth 3 over 2) with NOT + - AND OR is compared, row by row, with the Boolean combination of its leaves' own SQL (the statement's second formulation).",
+   "Every leaf form of the filterable fragment (85 leaves: equality on ints incl. int64 extremes, decimals, words, phrases; < <= > >= on int/float/string; every bound-kind x inclusivity range incl. open and doubly open; value lists; patterns) is rendered, read back by PostgreSQL's grammar and evaluated on probe rows hitting every region and boundary its constants cut out, against the leaf's Lucene meaning; every depth-1 tree over all leaves, depth-2 over 6 leaves (thorough depth 3 over 2) with NOT + - AND OR is compared, row by row, with the Boolean combination of its leaves' own SQL (the statement's second formulation). Added later: 181 leaves - one table of numeric spellings (leading zeros, 2^53+-1, int64 extremes) in every numeric slot, quoted numerals as strings, patterns with escapes next to wild cards (escape-aware reference matcher).",
    'First-order evaluator with exact decimal arithmetic and code-point order on both sides; non-NULL rows of matching type; the six ledgered leaf-level defects are listed in known_findings.json.',
    "4/C03"),
  "C04": (True,
    "bounded exhaustive exploration of both renderers on all renderable queries of a tree space and all accepted token sequences, differential oracle (parameter list vs generator's values, placeholder count, semantic equivalence on probe rows, text stability under same-kind substitution)",
-   "For every query over the C03 leaves extended with short regexps and one-character patterns at depth <= 1 (value list known to the harness), every tree of T(25,1) ∪ T(6,2) (thorough T(25,2)) and every accepted token sequence <= 4/5, with and without default field: whenever ToPostgres succeeds ToParameterizedPostgres must succeed, carry as many ? as parameters, parameters of kind int/float64/string equal to the query's values left to right (patterns translated, open bounds absent), be readable by PostgreSQL's grammar after rebinding, and evaluate like the inline SQL on every probe row; every single-slot same-kind substitution must leave the SQL text unchanged.",
+   "For every query over the C03 leaves extended with short regexps and one-character patterns at depth <= 1 (value list known to the harness), every tree of T(25,1) ∪ T(6,2) (thorough T(25,2)) and every accepted token sequence <= 4/5, with and without default field: whenever ToPostgres succeeds ToParameterizedPostgres must succeed, carry as many ? as parameters, parameters of kind int/float64/string equal to the query's values left to right (patterns translated, open bounds absent), be readable by PostgreSQL's grammar after rebinding, and evaluate like the inline SQL on every probe row; every single-slot same-kind substitution must leave the SQL text unchanged. Added later: every leaf under 8 field names and every bare-term tree under 5 default-field names spelling ? $1 %s quote blank non-ASCII; reversed ranges; repeated list values.",
    'Equivalence by evaluation (not text). Two ledgered defects (inline %.2f rounding; quoted "*" emitted as constant).',
    "4/C04"),
  "C05": (True,
    'bounded exhaustive exploration of the real parser over all expression trees up to a depth bound, printed by a stratified-grammar reference printer, compared with the tree built through the public constructors',
-   'Every tree of depth <= 2 over 25 leaf forms x 7 unary x 2 binary constructors (2.2e6 trees; thorough adds depth 3 over 3 leaves, 2.9e7), every unary chain to length 4/5 and every binary spine to 4/5 leaves is printed with exactly the parentheses the documented table requires (plus: one redundant pair at each node, fully parenthesised) and parsed by the real Parse; the result must be reflect.DeepEqual to the tree built from the same AST with expr.AND/Eq/Rang/... Nothing sampled.',
+   'Every tree of depth <= 2 over 25 leaf forms x 7 unary x 2 binary constructors (2.2e6 trees; thorough adds depth 3 over 3 leaves, 2.9e7), every unary chain to length 4/5 and every binary spine to 4/5 leaves is printed with exactly the parentheses the documented table requires (plus: one redundant pair at each node, fully parenthesised) and parsed by the real Parse; the result must be reflect.DeepEqual to the tree built from the same AST with expr.AND/Eq/Rang/... Nothing sampled. Added later: compact printing; value groups in every regrouping; bracket-bearing quoted/regexp text; 11 numeric argument spellings of ^ and ~ at depth 2; left-associative chains of 6..100 copies of every leaf.',
    "Trusts the harness printer's reading of the table (calibrated: the only disagreements on the pinned tree were the repeated-prefix-operator defect, since fixed). General trees deeper than 3 are outside the bound.",
    "4/C05"),
  "C06": (True,
    'bounded exhaustive exploration of the real parser over all token sequences up to a length bound (full and focused alphabets) and edit neighbourhoods of valid queries, each accepted tree checked by a derivation-matcher reference model',
-   'All token sequences of length <= 4/5 over a 28-token alphabet with every token type, <= 7-10 over five focused sub-alphabets, and everything within 1-2 token edits of every depth-1 tree rendering, x {no default field, default field}: whenever the real Parse accepts, a memoised recogniser decides whether the returned tree can be laid over the token sequence with the documented productions (term typing, operator consumption, bracket pairing, non-empty groups, term range bounds).',
+   'All token sequences of length <= 4/5 over a 28-token alphabet with every token type, <= 7-10 over five focused sub-alphabets, and everything within 1-2 token edits of every depth-1 tree rendering, x {no default field, default field}: whenever the real Parse accepts, a memoised recogniser decides whether the returned tree can be laid over the token sequence with the documented productions (term typing, operator consumption, bracket pairing, non-empty groups, term range bounds). Added later: alphabets with patterns and leading-zero numerals; every sequence <= 4/5 over three alphabets embedded in 8 contexts (comparison value, value group, range bound, operand of NOT / AND / OR / + ~).',
    'The matcher is deliberately permissive where the documentation is silent (parenthesised field/distance, mixed range brackets). Sequences longer than the bounds and not near a valid query are outside.',
    "4/C06"),
  "C07": (True,
    'bounded exhaustive exploration of the real parser: all trees to a depth bound x all subsets of AND nodes written as juxtaposition, differential oracle Parse(juxtaposed) == Parse(explicit AND)',
-   'For every tree of depth <= 2 over 25 leaf forms (thorough: + depth 3 over 2 and 3 leaves) and every binary spine to 5/6 leaves, every non-empty subset of eligible AND nodes is printed as juxtaposition and parsed; it must parse (core gaps) and be DeepEqual to the parse of the explicit-AND text. 4.5e6 texts in the quick tier.',
+   'For every tree of depth <= 2 over 25 leaf forms (thorough: + depth 3 over 2 and 3 leaves) and every binary spine to 5/6 leaves, every non-empty subset of eligible AND nodes is printed as juxtaposition and parsed; it must parse (core gaps) and be DeepEqual to the parse of the explicit-AND text. 4.5e6 texts in the quick tier. Added later: every token sequence <= 7 over a juxtaposition alphabet against itself with AND written into every core gap; unary chains <= 3 as left operand in five contexts.',
    'Non-core gaps (after a closing bracket or postfix operator, before ( NOT + -) may be rejected; counted in evidence (rejected_noncore). Depth > 3 outside the bound.',
    "4/C07"),
  "C08": (True,
    'bounded exhaustive exploration of lexer+parser+renderers over all strings up to a length bound in every value slot, oracle = the string itself (tree, PostgreSQL-decoded constant, parameter list)',
-   "Every string of <= 4/5 runes over 27 characters (28 for escaping) is written quoted resp. with a backslash before every special character as equality value, comparison value, either range bound, list element, bare term (also as the whole query under a default field) and field name; the parsed tree must be exactly the tree with that plain string; for quoted strings the inline SQL constant as decoded by PostgreSQL's scanner and the parameter list must contain exactly that string.",
+   "Every string of <= 4/5 runes over 27 characters (28 for escaping) is written quoted resp. with a backslash before every special character as equality value, comparison value, either range bound, list element, bare term (also as the whole query under a default field) and field name; the parsed tree must be exactly the tree with that plain string; for quoted strings the inline SQL constant as decoded by PostgreSQL's scanner and the parameter list must contain exactly that string. Added later: U+FFFD; a refusal by ToPostgres is a violation of the sql clause (the alphabet has no NUL and no invalid UTF-8).",
    'Characters are class representatives; strings Go reads as numbers and the four keywords are excluded from the escaping clause; longer strings are outside the bound.',
    "4/C08"),
  "C09": (True,
    'bounded exhaustive exploration of the real lexer+parser: all token sequences to a length bound x all whitespace fillings / keyword case patterns / redundant-parenthesis placements, metamorphic oracle between two runs',
-   'Every token sequence of length <= 4/5 over the 28-token alphabet (accepted and rejected) is re-laid-out with every uniform filler, every single-gap deviation (thorough: two-gap), leading/trailing whitespace, every case pattern of every keyword; every tree text gets redundant parentheses at the root, at each operand of an explicit operator, around each term value and all at once (with and without default field). Parse outcome must be identical (tree DeepEqual; failure preserved for whitespace/case). 2e7 variants quick.',
+   'Every token sequence of length <= 4/5 over the 28-token alphabet (accepted and rejected) is re-laid-out with every uniform filler, every single-gap deviation (thorough: two-gap), leading/trailing whitespace, every case pattern of every keyword; every tree text gets redundant parentheses at the root, at each operand of an explicit operator, around each term value and all at once (with and without default field). Parse outcome must be identical (tree DeepEqual; failure preserved for whitespace/case). 2e7 variants quick. Added later: white-space and keyword-case variants on every tree text too, the two dimensions combined (lower-case keyword x compact / tabs), parentheses around the numeric argument of ~ ^, leaves whose quoted/regexp text contains brackets.',
    'Only the four ASCII whitespace characters; empty filler only next to a symbol token so tokens can never fuse.',
    "4/C09"),
  "C10": (True,
    'bounded exhaustive exploration of Parse/ToPostgres/ToParameterizedPostgres over all token sequences, byte strings and edit neighbourhoods up to a bound, with an independent shape-walk reference',
-   'Every token sequence <= 4/5 (full alphabet) and <= 6/7 (five focused alphabets), every byte string <= 4/5 over 16 class representatives, every 1-edit neighbour of every depth-1 tree text, each with and without a default field: result pairs must be all-or-nothing, accepted trees must pass Validate and an independent walk of the statement\'s shape rules, render results must be (text,nil) or ("",err).',
+   'Every token sequence <= 4/5 (full alphabet) and <= 6/7 (five focused alphabets), every byte string <= 4/5 over 16 class representatives, every 1-edit neighbour of every depth-1 tree text, each with and without a default field: result pairs must be all-or-nothing, accepted trees must pass Validate and an independent walk of the statement\'s shape rules, render results must be (text,nil) or ("",err). Added later: every sequence <= 5/6 over three alphabets in 8 contexts; every input is parsed twice and the outcome must not change.',
    "Panics are C01's (counted as skipped_upstream). Inputs beyond the bounds are outside.",
    "4/C10"),
  "C11": (True,
    'bounded exhaustive exploration of the real parser: all token sequences / trees up to a bound parsed with and without the option, differential + structural oracle',
-   'Every token sequence <= 4/5 (full alphabet) and <= 6/7 (unary and boolean alphabets) with default field D, and every tree text of T(25,1) ∪ T(6,2) (thorough T(25,2)) with four default-field names (plain, with space, with double quote, 70 bytes): acceptance must agree with the option-free parse, erasing the default scoping must give exactly the option-free tree, no bare operand may remain and nothing inside a fielded value may be scoped.',
+   'Every token sequence <= 4/5 (full alphabet) and <= 6/7 (unary and boolean alphabets) with default field D, and every tree text of T(25,1) ∪ T(6,2) (thorough T(25,2)) with four default-field names (plain, with space, with double quote, 70 bytes): acceptance must agree with the option-free parse, erasing the default scoping must give exactly the option-free tree, no bare operand may remain and nothing inside a fielded value may be scoped. Added later: value groups f:(T), T over bare and fielded terms to depth 2, alone / negated / in a conjunction; nested groups.',
    'The default-field name never occurs in the query (precondition of the statement).',
    "4/C11"),
  "C12": (True,
    "bounded exhaustive exploration of the JSON codec on all accepted queries of a tree space built around the codec's corner values, round-trip oracle through encode/decode/print/render",
-   'Every accepted text of the trees over 41 leaf forms (the 21 standard ones plus empty strings, quoted * ? /x/, escaped /, 5.0, 1e3, -0, int64 extremes, non-ASCII, a word spelling "min":"max":, float/open/empty bounds) x 8 unary forms (fuzzy 0/1/3, boost 1/2.5) at depth 1 (thorough: depth 2, 1.5e7 trees), and every accepted token sequence <= 4/5, with and without default field: Marshal, Unmarshal, Validate, byte-identical re-encoding, identical String(), identical Render/RenderParam results, and DeepEqual whenever every leaf has the kind the decoder infers.',
+   'Every accepted text of the trees over 41 leaf forms (the 21 standard ones plus empty strings, quoted * ? /x/, escaped /, 5.0, 1e3, -0, int64 extremes, non-ASCII, a word spelling "min":"max":, float/open/empty bounds) x 8 unary forms (fuzzy 0/1/3, boost 1/2.5) at depth 1 (thorough: depth 2, 1.5e7 trees), and every accepted token sequence <= 4/5, with and without default field: Marshal, Unmarshal, Validate, byte-identical re-encoding, identical String(), identical Render/RenderParam results, and DeepEqual whenever every leaf has the kind the decoder infers. Added later: integers beyond 2^53 in every position; the codec\'s key words as data; control and non-printable characters; bare words over an escape alphabet in 7 slots; every ordered pair of ~110 shapes decoded one after the other into the same variable.',
    "DeepEqual is only demanded under the statement's leaf-kind condition, computed from the original tree.",
    "4/C12"),
  "C13": (True,
    'bounded exhaustive exploration of the decoder and the validated-expression operations over all byte strings of a JSON alphabet and all schema documents to nesting depth 2 (children by shape signature)',
-   "Every byte string <= 4/5 over 21 JSON symbols (punctuation, digits, letters, the schema's key words) and every document {left, operator, right, extras} over 22 leaf values x 22 operator names x (values ∪ 243 boundary objects) is decoded by the real UnmarshalJSON under recover; whatever decodes and validates is printed, re-encoded and rendered both ways under recover. Depth 2 pairs every representative of a decoded-shape signature (≈1 000 validated, ≈2 000 all) with every plain value and every coarse representative.",
+   "Every byte string <= 4/5 over 21 JSON symbols (punctuation, digits, letters, the schema's key words) and every document {left, operator, right, extras} over 22 leaf values x 22 operator names x (values ∪ 243 boundary objects) is decoded by the real UnmarshalJSON under recover; whatever decodes and validates is printed, re-encoded and rendered both ways under recover. Depth 2 pairs every representative of a decoded-shape signature (≈1 000 validated, ≈2 000 all) with every plain value and every coarse representative. Added later: documents that fail Validate and would make an operation panic, buried under 2..1025 levels of four wrappers; SQL-hostile strings inside arrays as bounds; fatal crashes diagnosed as in C01.",
    'Depth-2 children are abstracted by shape signature (operator, dynamic types, string classes the code branches on, render outcome), recomputed from the implementation on every run; depth 1 is exhaustive without abstraction.',
    "4/C13"),
  "C14": (True,
    "stateless model checking of the real library under a hand-written cooperative scheduler: statement points inserted by source instrumentation, all schedules up to a preemption bound for all ordered operation pairs on colliding inputs; plus exhaustive 2-call sequences against fresh-process references; free-running -race run as complement",
-   "The library source is instrumented from the working tree (a vsched.Point before every statement, via go build -overlay); harness threads run one at a time and the explorer enumerates every schedule with <= 1 preemption before any statement for all 121 ordered pairs of the 11 operations on a query that drives every shared table (same shared *Expression, same package-level driver), for 16 pairs of text operations on two different long queries (and 3-thread variants), every schedule with 2 preemptions where the second sits at a statement naming a package-level variable, 3 preemptions at such statements, and 3-thread scenarios at 1 preemption (thorough: 3 queries, 2 preemptions at function entries / anywhere for heavy pairs). Every schedule starts from the same history (a checked sequential prelude); per schedule: no panic, each thread's result equals its sequential reference, shared expressions DeepEqual to a fresh parse; the first schedule of every scenario is replayed and compared; real locks inside the library are survived (stall detection, free-running completion). E1: all 420k two-call sequences over 11 ops x 59 queries (incl. pairs a normalising cache would confuse) in one process against references computed in fresh processes.",
+   "The library source is instrumented from the working tree (a vsched.Point before every statement, via go build -overlay); harness threads run one at a time and the explorer enumerates every schedule with <= 1 preemption before any statement for all 121 ordered pairs of the 11 operations on a query that drives every shared table (same shared *Expression, same package-level driver), for 16 pairs of text operations on two different long queries (and 3-thread variants), every schedule with 2 preemptions where the second sits at a statement naming a package-level variable, 3 preemptions at such statements, and 3-thread scenarios at 1 preemption (thorough: 3 queries, 2 preemptions at function entries / anywhere for heavy pairs). Every schedule starts from the same history (a checked sequential prelude); per schedule: no panic, each thread's result equals its sequential reference, shared expressions DeepEqual to a fresh parse; the first schedule of every scenario is replayed and compared; real locks inside the library are survived (stall detection, free-running completion). E1: all 420k two-call sequences over 11 ops x 59 queries (incl. pairs a normalising cache would confuse) in one process against references computed in fresh processes. Added later: returned values (expression, parameter slice, encoded bytes) are read again after every later call of a sequence; a second value of the default-field option on the other thread; long value lists, a 140-term query, lower-case keywords as scenario inputs; the README's driver customisation as an operation.",
    "Granularity is the Go statement; torn writes inside one statement and races that do not change a result within the bound are left to the free-running -race complement (same bodies, 8 goroutines, GORACE=halt_on_error), which is reported but is not the deciding step.",
    "4/C14"),
  "C15": (True,
    'bounded exhaustive exploration of driver.Base.Render over configurations x trees with tracing render functions, checked against a fold reference model',
-   'All 41 configurations (all-tracing map, 19 single-operator overrides, 19 single-operator removals, the README construction) x every tree of T(25,1) ∪ T(6,2) (thorough T(25,2)) obtained both by Parse and through the public constructors: the call log must be exactly one call per node, to the function registered for that node\'s operator, after its children, with its children\'s results as (left, right) wrapped in parentheses at most, and Render\'s result must be the root call\'s result; with an operator removed Render must return ("", error) iff the tree contains it; ToPostgres/ToParameterizedPostgres must fail on every text containing ~ or ^, also after Fuzzy/Boost functions were registered in the function map of another driver.',
+   'All 41 configurations (all-tracing map, 19 single-operator overrides, 19 single-operator removals, the README construction) x every tree of T(25,1) ∪ T(6,2) (thorough T(25,2)) obtained both by Parse and through the public constructors: the call log must be exactly one call per node, to the function registered for that node\'s operator, after its children, with its children\'s results as (left, right) wrapped in parentheses at most, and Render\'s result must be the root call\'s result; with an operator removed Render must return ("", error) iff the tree contains it; ToPostgres/ToParameterizedPostgres must fail on every text containing ~ or ^, also after Fuzzy/Boost functions were registered in the function map of another driver. Added later: trees only the constructors can build; every operator\'s function returning the empty string; ~ and ^ anywhere inside a field\'s value group; a driver\'s private map.',
    'Serialisation of raw leaf values and the order in which independent children are rendered are not constrained (not part of the statement).',
    "4/C15"),
  "C16": (True,
    "bounded exhaustive (stateless) exploration of the real lexer: all byte strings over class representatives x all Peek/Next call sequences, against a token-list-with-cursor reference model",
-   "Every byte string of length <= L (5/6) over 17 lexer-class representatives incl. a multi-byte digit (and <= L+1 over 9 UTF-8 fragment bytes) is lexed by the real internal/lex; on each input every Peek/Next call sequence of length <= D is replayed on a fresh lexer and compared step by step with a stream model (token list + cursor); segmentation, EOF stickiness, must-fail classes and a must-lex class (blank-separated plain words are exactly those literal tokens), all decided without the lexer's rules, are checked on every input. Exhaustive inside the bounds, nothing sampled.",
+   "Every byte string of length <= L (5/6) over 17 lexer-class representatives incl. a multi-byte digit (and <= L+1 over 9 UTF-8 fragment bytes) is lexed by the real internal/lex; on each input every Peek/Next call sequence of length <= D is replayed on a fresh lexer and compared step by step with a stream model (token list + cursor); segmentation, EOF stickiness, must-fail classes and a must-lex class (blank-separated plain words are exactly those literal tokens), all decided without the lexer's rules, are checked on every input. Exhaustive inside the bounds, nothing sampled. Added later: byte alphabets for keyword letters, symbol runes aliasing ASCII symbols under truncation / width folding, CR LF inside tokens; a reference scanner decides the must-fail classes for every valid UTF-8 input.",
    "Trusts: Go runtime; characters are represented by lexer class; inputs longer than L and call sequences longer than D are outside the bound.",
    "4/C16"),
 }
